@@ -22,11 +22,18 @@ type Spec struct {
 	Slash    bool
 	Redeleg  bool
 	OneShare bool
-	w        *world.World
+	// V2: operations on the second validator too (delegations that arrived there by redelegation are transferred,
+	// withdrawn, undelegated); OldInfraction: the slash names an infraction three blocks back, so that unbonding and
+	// redelegation entries created since are slashed with the validator
+	V2            bool
+	OldInfraction bool
+	w             *world.World
 	users    []world.Actor
 }
 
-func (s *Spec) Name() string { return fmt.Sprintf("c11/slash=%v/redelegate=%v/one=%v", s.Slash, s.Redeleg, s.OneShare) }
+func (s *Spec) Name() string {
+	return fmt.Sprintf("c11/slash=%v/redelegate=%v/one=%v/v2=%v/old=%v", s.Slash, s.Redeleg, s.OneShare, s.V2, s.OldInfraction)
+}
 
 var (
 	stAddr = fxstakingtypes.GetAddress()
@@ -153,6 +160,35 @@ func (s *Spec) Ops(st *explore.State) []explore.Op {
 			}
 		}
 	}
+	if s.V2 {
+		for _, u := range []world.Actor{a, b} {
+			u := u
+			if sh := s.shares(ctx, u.Acc(), v2); sh.IsPositive() {
+				half := func(x sdk.Context) *big.Int { return s.shares(x, u.Acc(), v2).QuoInt64(2).TruncateInt().BigInt() }
+				all := func(x sdk.Context) *big.Int { return s.shares(x, u.Acc(), v2).TruncateInt().BigInt() }
+				ops = append(ops, explore.Op{Name: "Undelegate(" + u.Name + ",v2,half)", Run: func(c *explore.State) {
+					val, _ := s.w.App.StakingKeeper.GetValidator(c.Ctx, v2)
+					tok := val.TokensFromShares(s.shares(c.Ctx, u.Acc(), v2).QuoInt64(2)).TruncateInt().BigInt()
+					s.call(c, u, "undelegateV2", v2.String(), tok)
+				}})
+				ops = append(ops, explore.Op{Name: "Withdraw(" + u.Name + ",v2)", Run: func(c *explore.State) { s.call(c, u, "withdraw", v2.String()) }})
+				for _, to := range []world.Actor{a, b} {
+					if to.Name == u.Name {
+						continue
+					}
+					ops = append(ops, s.transferOp(fmt.Sprintf("Transfer(%s->%s,v2,half)", u.Name, to.Name), u, u, to, v2, half, false))
+					ops = append(ops, s.transferOp(fmt.Sprintf("Transfer(%s->%s,v2,all)", u.Name, to.Name), u, u, to, v2, all, false))
+				}
+			}
+		}
+		if s.shares(ctx, b.Acc(), v1).IsPositive() {
+			ops = append(ops, explore.Op{Name: "Redelegate(b,v1->v2,all)", Run: func(c *explore.State) {
+				val, _ := s.w.App.StakingKeeper.GetValidator(c.Ctx, v1)
+				tok := val.TokensFromShares(s.shares(c.Ctx, b.Acc(), v1)).TruncateInt().BigInt()
+				s.call(c, b, "redelegateV2", v1.String(), v2.String(), tok)
+			}})
+		}
+	}
 	if s.shares(ctx, a.Acc(), v1).IsPositive() {
 		if s.w.App.StakingKeeper.GetAllowance(ctx, v1, a.Acc(), b.Acc()).Sign() == 0 {
 			ops = append(ops, explore.Op{Name: "Approve(a->b,v1,all)", Run: func(c *explore.State) {
@@ -188,7 +224,11 @@ func (s *Spec) Ops(st *explore.State) []explore.Op {
 				return
 			}
 			power := sdk.TokensToConsensusPower(val.Tokens, sdk.DefaultPowerReduction)
-			_, err := s.w.App.StakingKeeper.Slash(c.Ctx, s.w.Vals[0].ConsAddr(), c.Ctx.BlockHeight(), power, sdkmath.LegacyNewDecWithPrec(5, 2))
+			infraction := c.Ctx.BlockHeight()
+			if s.OldInfraction && infraction > 4 {
+				infraction -= 3
+			}
+			_, err := s.w.App.StakingKeeper.Slash(c.Ctx, s.w.Vals[0].ConsAddr(), infraction, power, sdkmath.LegacyNewDecWithPrec(5, 2))
 			c.Accepted = err == nil
 			c.Outcome = map[bool]string{true: "ok", false: "error"}[err == nil]
 		}})
@@ -282,16 +322,20 @@ func init() {
 	registry.Register(&registry.Check{
 		ID:    "C11",
 		Level: "model_checking",
-		Rule:  "explicit-state DFS over signed EVM transactions to the staking precompile by accounts a, b (c only receives): delegate, undelegate half, withdraw, approve, transfer half/all/1 share to a, b, c including the sender itself and a recipient without delegation, transferFrom, redelegate, reward-producing blocks, 5% validator slash; per transfer: share deltas, validator unchanged, allowance delta, nothing left to withdraw; every state: delegations sum to validator shares, every registered crisis invariant holds, every participant can withdraw and fully undelegate on a scratch branch",
+		Rule:  "explicit-state DFS over signed EVM transactions to the staking precompile by accounts a, b (c only receives): delegate, undelegate half, withdraw, approve, transfer half/all/1 share to a, b, c including the sender itself and a recipient without delegation, transferFrom, redelegate, reward-producing blocks, 5% validator slash; a second job adds the same operations on the second validator (delegations that arrived by redelegation, incl. a full redelegation) and a slash for an infraction three blocks back (unbonding and redelegation entries created since are slashed too); per transfer: share deltas, validator unchanged, allowance delta, nothing left to withdraw; every state: delegations sum to validator shares, every registered crisis invariant holds, every participant can withdraw and fully undelegate on a scratch branch",
 		Assumptions: []string{"stake unit 100 FX; validator commission 10%; rewards come from the real mint/distribution begin-blockers"},
 		Jobs: func(tier string) []registry.Job {
 			if tier == "thorough" {
 				return []registry.Job{
 					{Name: "full", Spec: &Spec{Slash: true, Redeleg: true, OneShare: true}, Depth: 6, ShardDepth: 2},
 					{Name: "no-slash-deeper", Spec: &Spec{Redeleg: true}, Depth: 7, ShardDepth: 2},
+					{Name: "second-validator+old-infraction", Spec: &Spec{Slash: true, Redeleg: true, V2: true, OldInfraction: true}, Depth: 6, ShardDepth: 2},
 				}
 			}
-			return []registry.Job{{Name: "slash+redelegate", Spec: &Spec{Slash: true, Redeleg: true}, Depth: 5, ShardDepth: 2}}
+			return []registry.Job{
+				{Name: "slash+redelegate", Spec: &Spec{Slash: true, Redeleg: true}, Depth: 5, ShardDepth: 2},
+				{Name: "second-validator+old-infraction", Spec: &Spec{Slash: true, Redeleg: true, V2: true, OldInfraction: true}, Depth: 5, ShardDepth: 2},
+			}
 		},
 	})
 }
